@@ -5,7 +5,7 @@
    a failing callback and with any filter answer / new block / Stop), i.e.
    every arrival time of requests and blocks relative to the scan. *)
 From Coq Require Import ZArith List Bool Lia Permutation.
-From Verif Require Import C10.Model C10.Spec C10.Proofs C10.ProofsL.
+From Verif Require Import C10.Model C10.Spec C10.Proofs C10.ProofsL C10.Adapter.
 Import ListNotations.
 Open Scope Z_scope.
 
@@ -238,6 +238,19 @@ Definition ex_ops : list op :=
     Step false true; Step false true; Step false true; Step false true;
     Enq (6, 0) 4; Step false true; Step false true; Step true true;            (* GetBlock fails at its start height *)
     Enq (6, 0) 4; Stop; Step false true; Finish ].
+(* The adapter between GetCFilter and the scanner's filter oracle
+   (blockFilterMatches; C10/Adapter.v, compared with the real function on
+   every run): "no match" — the answer that makes the scanner skip a block for
+   good — is only given for a fetched filter that is empty or does not match,
+   or when the block's hash is unknown (reorganised out); a filter that could
+   not be fetched is an error, never a silent miss.  This is the adapter's
+   share of the hypothesis "the filter oracle has no false negatives". *)
+Theorem C10_filter_adapter_no_silent_miss : forall f,
+  adapter f = ANoMatch ->
+  (exists n m, f = FOk n m /\ (n = 0 \/ m = false)) \/ f = FHashNotFound.
+Proof. exact adapter_no_silent_miss. Qed.
+Print Assumptions C10_filter_adapter_no_silent_miss.
+
 Example C10_nonvacuous :
   fsound ex_chain (init 3) ex_ops = true /\
   (let s := run ex_chain (init 3) ex_ops in
